@@ -7,3 +7,115 @@ package dns
 //@ func (*Upstream).String
 //@   pure
 //@   trusted
+
+// ---------------------------------------------------------------------------------------------
+// C07: DNS request / response routing = first matching rule of the flat match-set array.
+// Same shape as the traffic matcher (see package control): entries chained by OR form a condition,
+// conditions chained by AND form a rule, `Not` negates the condition, the last entry of a rule carries
+// the upstream; the fallback entry always hits.
+
+//@ func (*RequestMatcher).Match
+//@   let N() = len(m.matches)
+//@   let up(j int) = m.matches[j].Upstream
+//@   let mt(j int) = m.matches[j].Type
+//@   let isOr(j int) = up(j) == 254
+//@   let isTail(j int) = (up(j) & 254) != 254
+//@   let bm() = m.domainMatcher.MatchDomainBitmap(qName)
+//@   requires m.domainMatcher != nil
+//@   requires forall j int :: 0 <= j && j < N() ==> mt(j) == consts.MatchType_DomainSet || mt(j) == consts.MatchType_QType || mt(j) == consts.MatchType_Fallback
+//@   requires qName != "" && bm() != nil ==> N() <= 32 * len(bm())
+//@   ghostfn ss(i int) int
+//@   ghostfn rs(i int) int
+//@   ghostfn hit(j int) bool
+//@   ghostfn condHolds(e int) bool
+//@   ghostfn ruleHolds(t int) bool
+//@   assume ss(0) == 0 && rs(0) == 0
+//@   assume forall i int {up(i)} :: 0 <= i && i < N() ==> ss(i+1) == (isOr(i) ? ss(i) : i+1)
+//@   assume forall i int {up(i)} :: 0 <= i && i < N() ==> rs(i+1) == (isTail(i) ? i+1 : rs(i))
+//@   assume forall j int {hit(j)} {mt(j)} :: 0 <= j && j < N() ==> (hit(j) <==> ( \
+//@        (mt(j) == consts.MatchType_DomainSet && qName != "" && bm() != nil && ((bm()[j/32] >> (j%32)) & 1) > 0) \
+//@     || (mt(j) == consts.MatchType_QType && qType == m.matches[j].Value) \
+//@     || mt(j) == consts.MatchType_Fallback))
+//@   assume forall e int {condHolds(e)} :: 0 <= e && e < N() ==> (condHolds(e) <==> ((exists j int {hit(j)} :: ss(e) <= j && j <= e && hit(j)) != m.matches[e].Not))
+//@   assume forall t int {ruleHolds(t)} :: 0 <= t && t < N() ==> (ruleHolds(t) <==> (forall e int {condHolds(e)} {up(e)} :: rs(t) <= e && e <= t && !isOr(e) ==> condHolds(e)))
+//@   ensures err == nil ==> exists t int {ruleHolds(t)} {up(t)} :: 0 <= t && t < N() && isTail(t) && ruleHolds(t) \
+//@        && (forall u int {ruleHolds(u)} :: 0 <= u && u < t && isTail(u) ==> !ruleHolds(u)) && upstreamIndex == up(t)
+//@   ensures err != nil ==> (forall t int {ruleHolds(t)} :: 0 <= t && t < N() && isTail(t) ==> !ruleHolds(t))
+//@   loop 1
+//@     invariant 0 <= rs($idx) && rs($idx) <= ss($idx) && ss($idx) <= $idx && $idx <= N()
+//@     invariant badRule ==> !goodSubrule
+//@     invariant !badRule ==> (goodSubrule <==> (exists j int {hit(j)} :: ss($idx) <= j && j < $idx && hit(j)))
+//@     invariant badRule <==> (exists e int {condHolds(e)} {up(e)} :: rs($idx) <= e && e < $idx && !isOr(e) && !condHolds(e))
+//@     invariant forall u int {ruleHolds(u)} :: 0 <= u && u < $idx && isTail(u) ==> !ruleHolds(u)
+
+// ipHit(j): some answer address lies in the prefix set of entry j (the value of the library call
+// slices.ContainsFunc over the per-address keys; bound to the call result at its call site)
+//@ func (*ResponseMatcher).Match
+//@   nonilcheck
+//@   dyncalls noeffect
+//@   let N() = len(m.matches)
+//@   let up(j int) = m.matches[j].Upstream
+//@   let mt(j int) = m.matches[j].Type
+//@   let isOr(j int) = up(j) == 254
+//@   let isTail(j int) = (up(j) & 254) != 254
+//@   let bm() = m.domainMatcher.MatchDomainBitmap(qName)
+//@   requires m.domainMatcher != nil
+//@   requires forall j int :: 0 <= j && j < N() ==> mt(j) == consts.MatchType_DomainSet || mt(j) == consts.MatchType_IpSet || mt(j) == consts.MatchType_QType || mt(j) == consts.MatchType_Upstream || mt(j) == consts.MatchType_Fallback
+//@   requires forall j int :: 0 <= j && j < N() && mt(j) == consts.MatchType_IpSet ==> m.matches[j].Value < len(m.ipSet)
+//@   requires forall j int :: 0 <= j && j < N() && mt(j) == consts.MatchType_Upstream ==> m.matches[j].Value < 256
+//@   requires bm() != nil ==> N() <= 32 * len(bm())
+//@   ghostfn ss(i int) int
+//@   ghostfn rs(i int) int
+//@   ghostfn hit(j int) bool
+//@   ghostfn ipHit(j int) bool
+//@   ghostfn condHolds(e int) bool
+//@   ghostfn ruleHolds(t int) bool
+//@   at call ContainsFunc#1 assume-after result == ipHit($idx)
+//@   assume ss(0) == 0 && rs(0) == 0
+//@   assume forall i int {up(i)} :: 0 <= i && i < N() ==> ss(i+1) == (isOr(i) ? ss(i) : i+1)
+//@   assume forall i int {up(i)} :: 0 <= i && i < N() ==> rs(i+1) == (isTail(i) ? i+1 : rs(i))
+//@   assume forall j int {hit(j)} {mt(j)} :: 0 <= j && j < N() ==> (hit(j) <==> ( \
+//@        (mt(j) == consts.MatchType_DomainSet && bm() != nil && ((bm()[j/32] >> (j%32)) & 1) > 0) \
+//@     || (mt(j) == consts.MatchType_IpSet && ipHit(j)) \
+//@     || (mt(j) == consts.MatchType_QType && qType == m.matches[j].Value) \
+//@     || (mt(j) == consts.MatchType_Upstream && upstream == m.matches[j].Value) \
+//@     || mt(j) == consts.MatchType_Fallback))
+//@   assume forall e int {condHolds(e)} :: 0 <= e && e < N() ==> (condHolds(e) <==> ((exists j int {hit(j)} :: ss(e) <= j && j <= e && hit(j)) != m.matches[e].Not))
+//@   assume forall t int {ruleHolds(t)} :: 0 <= t && t < N() ==> (ruleHolds(t) <==> (forall e int {condHolds(e)} {up(e)} :: rs(t) <= e && e <= t && !isOr(e) ==> condHolds(e)))
+//@   ensures err == nil ==> exists t int {ruleHolds(t)} {up(t)} :: 0 <= t && t < N() && isTail(t) && ruleHolds(t) \
+//@        && (forall u int {ruleHolds(u)} :: 0 <= u && u < t && isTail(u) ==> !ruleHolds(u)) && upstreamIndex == up(t)
+//@   ensures err != nil && qName != "" ==> (forall t int {ruleHolds(t)} :: 0 <= t && t < N() && isTail(t) ==> !ruleHolds(t))
+//@   loop 1
+//@     invariant bin128 == nil || fresh(bin128)
+//@   loop 2
+//@     invariant 0 <= rs($idx) && rs($idx) <= ss($idx) && ss($idx) <= $idx && $idx <= N()
+//@     invariant badRule ==> !goodSubrule
+//@     invariant !badRule ==> (goodSubrule <==> (exists j int {hit(j)} :: ss($idx) <= j && j < $idx && hit(j)))
+//@     invariant badRule <==> (exists e int {condHolds(e)} {up(e)} :: rs($idx) <= e && e < $idx && !isOr(e) && !condHolds(e))
+//@     invariant forall u int {ruleHolds(u)} :: 0 <= u && u < $idx && isTail(u) ==> !ruleHolds(u)
+
+// C07: every address record (A / AAAA with a well-formed address) of the upstream answer takes part in
+// response routing, whatever other records (CNAME, ...) surround it; the question's name and type are the
+// ones routed; the selected upstream is the one the first matching rule names.
+//@ func (*Dns).ResponseSelect
+//@   anchorsonly
+//@   dyncalls noeffect
+//@   trustframe
+//@   let isA(k int) = typeis(msg.Answer[k], "*dnsmessage.A")
+//@   let isAAAA(k int) = typeis(msg.Answer[k], "*dnsmessage.AAAA")
+//@   let okA(k int) = isA(k) && nth(netip.AddrFromSlice(unbox(msg.Answer[k], "*dnsmessage.A").A), 1)
+//@   let okAAAA(k int) = isAAAA(k) && nth(netip.AddrFromSlice(unbox(msg.Answer[k], "*dnsmessage.AAAA").AAAA), 1)
+//@   let addrOf(k int) = isA(k) ? nth(netip.AddrFromSlice(unbox(msg.Answer[k], "*dnsmessage.A").A), 0) : nth(netip.AddrFromSlice(unbox(msg.Answer[k], "*dnsmessage.AAAA").AAAA), 0)
+//@   at call Match#1 assert len(msg.Question) > 0 ==> a1 == msg.Question[0].Name && a2 == msg.Question[0].Qtype
+//@   ghostfn pos(k int) int
+//@   at call builtin:append#1 assume-after pos($idx) == len(a0)
+//@   at call Match#1 assert len(msg.Question) > 0 ==> (forall k int {msg.Answer[k]} :: 0 <= k && k < len(msg.Answer) && (okA(k) || okAAAA(k)) ==> 0 <= pos(k) && pos(k) < len(a3) && a3[pos(k)] == addrOf(k))
+//@   loop 1
+//@     invariant ips == nil || fresh(ips)
+//@     invariant forall k int {msg.Answer[k]} :: 0 <= k && k < $idx && (okA(k) || okAAAA(k)) ==> 0 <= pos(k) && pos(k) < len(ips) && ips[pos(k)] == addrOf(k)
+
+//@ func (*Dns).RequestSelect
+//@   anchorsonly
+//@   dyncalls noeffect
+//@   trustframe
+//@   at call Match#1 assert a1 == qname && a2 == qtype
